@@ -350,6 +350,37 @@ func ruleRowCache(p *Prog, r *Result) {
 			}
 		}
 	}
+	// every consumer of a pair-level plan starts its batch fetches with a clean context: the chunk caches are
+	// looked up by (field name, first key of the chunk), so an entry left behind by an earlier statement or by a
+	// run that ended early (error, LIMIT reached) answers for a chunk that merely starts at the same key. The
+	// plans that implement Plan themselves only forward their caller's context and are not consumers
+	planIface := p.Iface("Plan")
+	nFetch := 0
+	for _, fn := range p.Funcs {
+		if fn.Signature.Recv() != nil && planIface != nil {
+			if types.Implements(fn.Signature.Recv().Type(), planIface) {
+				continue
+			}
+		}
+		allInstrs(fn, func(in ssa.Instruction) {
+			c, ok := in.(*ssa.Call)
+			if !ok || !c.Call.IsInvoke() || typeName(c.Call.Value.Type()) != "Plan" || c.Call.Method.Name() != "Batch" {
+				return
+			}
+			var ctx ssa.Value
+			for _, a := range c.Call.Args {
+				if isCtx(a) && !isNilConst(a) {
+					ctx = a
+				}
+			}
+			if ctx == nil {
+				return
+			}
+			nFetch++
+			r.add(clearedBefore(fn, in, ctx, nil), p.FName(fn)+"|fetch-clear", p.InstrPos(in), "a consumer empties the context before it polls a pair-level plan in batch mode (a chunk-cache entry of an earlier statement or run would answer for a chunk starting at the same key)")
+		})
+	}
+	r.floor("batch fetches of pair-level plans by their consumers", nFetch, 2)
 	// the projection starts every Next/Batch with a clean context: a plain Clear(ctx) call dominates the
 	// child fetch (the chunk cache accumulates inside the context and is re-indexed per call)
 	if pt := p.Named("ProjectionPlan"); pt != nil {
@@ -539,5 +570,138 @@ func ruleRowCache(p *Prog, r *Result) {
 			r.add(groupCleared(fn, in, ctx, 0), fmt.Sprintf("%s|group|%s#%d", p.FName(fn), callDesc(p, ci), ord), p.InstrPos(in), "the fields of a group are evaluated with a context emptied for that group (the per-row cache is keyed by field name: a count cached for the previous group would be reused)")
 		})
 	}
+	// a group's fields are evaluated when the group is complete, and on a pair of the group:
+	//  complete-first - a field may use the name of a field listed after it (and an aggregate may occur in several
+	//    fields), so within one group no aggregate result is stored into the tree after a field was evaluated;
+	//  group-pair - what is not an aggregate in such a field (a GROUP BY value next to a count) is evaluated on the
+	//    pair handed to Execute, which therefore comes from the group's row, not from a fresh empty pair
+	storesResultDirect := func(f *ssa.Function) bool {
+		found := false
+		allInstrs(f, func(in ssa.Instruction) {
+			if st, ok := in.(*ssa.Store); ok {
+				if o, fld, _, ok := fieldOfAddr(st.Addr); ok && o != nil && o.Obj().Name() == "FunctionCallExpr" && fld == "Result" {
+					found = true
+				}
+			}
+		})
+		return found
+	}
+	storing := map[*ssa.Function]bool{}
+	for _, f := range p.Funcs {
+		if storesResultDirect(f) {
+			storing[f] = true
+		}
+	}
+	isResultStore := func(in ssa.Instruction) bool {
+		if st, ok := in.(*ssa.Store); ok {
+			if o, fld, _, ok := fieldOfAddr(st.Addr); ok && o != nil && o.Obj().Name() == "FunctionCallExpr" && fld == "Result" {
+				return true
+			}
+		}
+		if c, ok := in.(*ssa.Call); ok {
+			if f := c.Call.StaticCallee(); f != nil && storing[f] {
+				return true
+			}
+		}
+		return false
+	}
+	nGroupEval := 0
+	for _, fn := range p.Funcs {
+		has := false
+		allInstrs(fn, func(in ssa.Instruction) {
+			if isResultStore(in) {
+				has = true
+			}
+		})
+		if !has {
+			continue
+		}
+		ord := 0
+		allInstrs(fn, func(in ssa.Instruction) {
+			c, ok := in.(*ssa.Call)
+			if !ok || !c.Call.IsInvoke() || c.Call.Method.Name() != "Execute" || typeName(c.Call.Value.Type()) != "Expression" {
+				return
+			}
+			ord++
+			nGroupEval++
+			// the loop that steps from group to group (as in the group clause)
+			var outer *Loop
+			for _, L := range naturalLoops(fn) {
+				if !L.Body[in.Block()] {
+					continue
+				}
+				advances := false
+				for b := range L.Body {
+					for _, in2 := range b.Instrs {
+						if st, ok := in2.(*ssa.Store); ok {
+							if o, _, base, ok := fieldOfAddr(st.Addr); ok && o != nil && len(fn.Params) > 0 && base == ssa.Value(fn.Params[0]) {
+								advances = true
+							}
+						}
+					}
+				}
+				if advances && (outer == nil || len(L.Body) > len(outer.Body)) {
+					outer = L
+				}
+			}
+			// blocks reachable after the evaluation without starting the next group
+			seen := map[*ssa.BasicBlock]bool{}
+			var walk func(b *ssa.BasicBlock)
+			walk = func(b *ssa.BasicBlock) {
+				for _, sc := range b.Succs {
+					if outer != nil && (sc == outer.Header || !outer.Body[sc]) {
+						continue
+					}
+					if !seen[sc] {
+						seen[sc] = true
+						walk(sc)
+					}
+				}
+			}
+			walk(in.Block())
+			late := ""
+			after := false
+			for _, in2 := range in.Block().Instrs {
+				if in2 == in {
+					after = true
+					continue
+				}
+				if after && isResultStore(in2) {
+					late = p.InstrPos(in2)
+				}
+			}
+			for b := range seen {
+				for _, in2 := range b.Instrs {
+					if isResultStore(in2) && (b != in.Block() || late == "") {
+						if b == in.Block() && !seen[b] {
+							continue
+						}
+						late = p.InstrPos(in2)
+					}
+				}
+			}
+			r.add(late == "", fmt.Sprintf("%s|complete-first|Execute#%d", p.FName(fn), ord), p.InstrPos(in), firstNonEmpty(map[bool]string{true: "an aggregate result of the same group is stored at " + late + " after this field was evaluated: a field that uses the name of a later field (or repeats its aggregate) sees the previous group's result"}[late != ""], "every aggregate result of the group is in place before the first field is evaluated"))
+			// the pair
+			kv := c.Call.Args[0]
+			fresh := false
+			if kc, ok := stripConv(kv).(*ssa.Call); ok {
+				if f := kc.Call.StaticCallee(); f != nil && f.Name() == "NewKVP" {
+					fresh = true
+				}
+			}
+			fromRow := false
+			if nt := p.Named("AggrPlanField"); nt != nil {
+				if st, ok := nt.Underlying().(*types.Struct); ok {
+					for i := 0; i < st.NumFields(); i++ {
+						if p.derivesFromField(kv, "AggrPlanField", st.Field(i).Name(), traceOpts{}) {
+							fromRow = true
+						}
+					}
+				}
+			}
+			r.add(fromRow && !fresh, fmt.Sprintf("%s|group-pair|Execute#%d", p.FName(fn), ord), p.InstrPos(in), "the field of a group is evaluated on a pair kept in the group's row (on an empty pair a GROUP BY value standing next to an aggregate silently evaluates to nothing)")
+		})
+	}
+	r.floor("field evaluations of completed groups", nGroupEval, 2)
 	r.floor("calls handing loop-variant rows and a context to cache-touching code", nCalls, 4)
 }
